@@ -77,6 +77,21 @@ fn main() {
                 if ds.is_empty() { ".".to_string() } else { ds.iter().map(|d| d.as_nanos().to_string()).collect::<Vec<_>>().join(",") }).unwrap();
         }
     }
+    // long retry chains (a test that keeps failing): the iterator must keep yielding the capped delay, never fail
+    for (count, delay_ms, max_ms) in [(80usize, 1u64, 1000u64), (150, 1, 50), (1100, 10, 10), (90, 1, 60_000), (300, 250, 250)] {
+        let delay = Duration::from_millis(delay_ms);
+        let p = RetryPolicy::Exponential { count, delay, jitter: false, max_delay: Some(Duration::from_millis(max_ms)) };
+        let prev = std::panic::take_hook();
+        std::panic::set_hook(Box::new(|_| {}));
+        let res = std::panic::catch_unwind(|| backoff_delays(p));
+        std::panic::set_hook(prev);
+        *dist.entry("backoff:exponential+max:long".into()).or_insert(0) += 1;
+        let shown = match res {
+            Ok(ds) => ds.iter().map(|d| d.as_nanos().to_string()).collect::<Vec<_>>().join(","),
+            Err(_) => "panic".to_string(),
+        };
+        writeln!(out, "backoff e {} {} 0 {}\t{}", count, delay.as_nanos(), max_ms as u128 * 1_000_000, shown).unwrap();
+    }
     out.flush().unwrap();
     let d: Vec<String> = dist.iter().map(|(k, v)| format!("{}={}", k, v)).collect();
     eprintln!("DIST {}", d.join(" "));
